@@ -34,6 +34,21 @@ CLAIMS = {
         'Tie: score bit pattern of the Flocq model vs kalign_msa_compare on file pairs (each with >= 1 gap); independent Python implementation of the definition as witness oracle.',
    note=TRUST + 'The final 100.0*a/b in binary64 stored to float is executed in the model (Flocq) and compared bit for bit; that a=b yields exactly 100.0f and a<=b a value in [0,100] is checked on every case, not proved. The six counters are internal to the C function: only the score is observed.',
    tech='Coq proof (induction over columns, pairs, canonical sorting) + bit-exact score correspondence'),
+ 'C04': dict(
+   text='PARTIAL. Theorems: (a) the reader core shared by read_fasta/read_clu/read_msf extracts exactly the letters, in order, whatever punctuation (gaps) is interspersed and however the row is cut into lines (C04_residues_are_the_letters, all chunkings, all bytes); (b) kalign_run_model receives only (name, residues) records - gaps, status and histogram do not reach it (C04_run_depends_on_records_only); (c) the DNA/protein decision depends only on the letter entries of the histogram (C04_kind_ignores_non_letters, after fix b495129). '
+        'The block layouts of Clustal/MSF, format sniffing and the merging of several inputs are NOT yet theorems: they are decided on every run by the correspondence of the executable reader model (Formats.v) with kalign_read_input on >= 11 presentations per record set (line widths, CRLF, blanks, digits, gap density up to 95%, Clustal/MSF renderings, 2..3 input files incl. an empty one) plus a malformed stream, and by comparing the implementation\'s alignments across presentations.',
+   note=TRUST + 'The composition "read(render X R) has records R" is proved for FASTA only (C06_fasta_roundtrip); for Clustal/MSF layouts it rests on the correspondence. stdin is not exercised separately: read_file_stdin uses the same getline loop for a FILE* and stdin.',
+   tech='Coq proof (reader core, run parametricity, histogram restriction) + reader-model correspondence on generated presentations'),
+ 'C06': dict(
+   text='PARTIAL. Theorems: the reader core rebuilds any gapped row from any cutting into lines, keeping case and gap positions (C06_reader_core); rows over letters and \'-\' are fixed points of the reader\'s normalisation; read_file_stdin inverts the writers\' line output (C06_lines_roundtrip); the complete file-level FASTA round trip for any number of rows, any width incl. multiples of 60 and any admissible names (C06_fasta_roundtrip). '
+        'The file-level Clustal and MSF round trips are stated in Properties_C06.v as Definitions (full statements) and are not yet theorems; they are decided on every run by byte-exact correspondence of write_msa_clu/msf/fasta and the three readers with the executable model and by round-trip runs over all nine ordered format pairs on the implementation.',
+   note=TRUST + 'Names of 1..200 bytes from [A-Za-z0-9_.|-]. The implementation side goes through kalign_read_input + finalise_alignment + kalign_write_msa (kalignfmt cannot write what it read).',
+   tech='Coq proof (reader core for all formats, FASTA file round trip) + byte-exact writer/reader correspondence over 9 format pairs'),
+ 'C15': dict(
+   text='PARTIAL. Theorems: FASTA rows are wrapped into lines of exactly 60 columns except a last one of 1..60 (C15_fasta_wrapped_at_60), the pieces concatenate to the row, and the FASTA file is exactly the header/sequence line list (C15_fasta_file_is_lines). '
+        'The Clustal/MSF block structure and the MSF header fields (true alignment length, per-row GCG checksum over the whole row, molecule type) are NOT yet theorems: the executable writer model (Formats.v write_clu/write_msf/gcg_checksum) is compared byte for byte with kalign_write_msa on every run, and independent parsers check header, block sizes, every-sequence-in-every-block, declared length, checksums and type label on the implementation\'s files.',
+   note=TRUST + 'The date in the MSF header is masked. Defects D4-D6 were found by this check and repaired (known_findings.json).',
+   tech='Coq proof (FASTA wrapping) + byte-exact writer-model correspondence + independent structural parsers'),
  'C11': dict(
    text='PARTIAL. The full statements (bpm_block = sed on the first 1024 pattern symbols; bpm/bpm_256 = sed up to 63/255) are written in Properties_C11.v as Definitions, not yet theorems; proved so far are only basic facts of the specification. '
         'What decides the property on every run: literal executable models of bpm_block, bpm and bpm_256 (lane-level add256 and 256-bit shift included) are compared with the implementation on both the AVX2 and the scalar build, and the implementation is compared with the extracted specification sed, exhaustively for alphabets {2,3} and small lengths (17k cases) and at random around every multiple of 64 up to the 1024 cap.',
